@@ -27,3 +27,16 @@ impl<T: Filter> Lockin<T> {
         self.update_iq(sample, Complex::from_angle(phase), k)
     }
 }
+
+
+#[cfg(idsp_verif)]
+impl<T: Copy> Lockin<T> {
+    /// Verification hook: construct from raw state.
+    pub fn verif_from_raw(state: [T; 2]) -> Self {
+        Self { state }
+    }
+    /// Verification hook: raw state.
+    pub fn verif_raw(&self) -> [T; 2] {
+        self.state
+    }
+}
